@@ -18,6 +18,11 @@ driver ops for C19 (part 1).  Strings travel as comma-separated Unicode code poi
       (cells of the embedded writer; objectives, objective bounds, bin bounds), `MAP` = `c<cps>=int|…`,
       `ROW` = `c<cps>|…`, `RECS` = records separated by `~`, each `k=v|…/n,d,w,h/MAP/MAP/MAP` (maps sorted by key)
 * `csvRp T|T|… ; ROW ; ROW …`              → `read=RECS` or `read=ERR`   (the model's reader on an arbitrary table)
+* `csvS  T|T|… ; SREC ; SREC …`            → `WERR` or `hdr=… rows=… gen2=<hdr>!<rows>` (`gen2` = the table the model writes from
+      what its reader returned; `gen2=ERR` if the reader rejects, `gen2=WERR` if the second write fails)
+      `SREC` = `cells / c<objective> / n d w h / SS|SS… / MAP / MAP`, `SS` = `c<name>:c<n cell>:c<use-key>=c<cell>&…`
+      (use-key `c` = the scope itself)
+* `csvSp T|T|… ; ROW ; ROW …`              → `gen2=…`
 -/
 namespace Drv.C19
 open Proto Text Base Pack
@@ -104,6 +109,94 @@ def showRead (o : Option (List (PRec DrvER))) : String :=
   | some rs => "read=" ++ "~".intercalate (rs.map showRec)
 def showRow (r : List Str) : String := "|".intercalate (r.map showCell)
 
+/-! ### statistics: identity codecs on (title, cell) / (use-key, cell) lists -/
+
+structure DrvSS where
+  cells : List (Str × Str)
+  n : Str
+  deriving DecidableEq
+
+structure DrvES where
+  cells : List (Str × Str)
+  objective : Str
+  deriving DecidableEq
+
+def ssUseKeys : List Str := ["", "min", "mean", "med", "geom", "max", "sd"].map String.toList
+
+def DrvSS.get (s : DrvSS) (k : String) : Option Int := (s.cells.lookup k.toList).bind parseInt?
+def DrvSS.mn (s : DrvSS) : Int := ((s.get "").orElse (fun _ => s.get "min")).getD 0
+def DrvSS.mx (s : DrvSS) : Int := ((s.get "").orElse (fun _ => s.get "max")).getD 0
+
+def drvSsCodec : SsCodec DrvSS where
+  titles scope data := match data with
+    | [] => []
+    | s :: _ => s.cells.map (fun p => if p.1 = [] then scope else scopeKey scope p.1)
+  row _ _ s := s.cells.map (·.2)
+  read scope f :=
+    match f kN with
+    | none => none
+    | some n => some ⟨ssUseKeys.filterMap (fun k => (f (if k = [] then scope else k)).map (fun c => (k, c))), n⟩
+
+/-- titles of moptipy's `EndStatistics` reader (a superset is harmless for the model: every title it may ask for) -/
+def esKeys : List Str :=
+  (["algorithm", "instance", "objective", "encoding", "n", "goalF", "maxFEs", "maxTimeMillis", "successN",
+    "ertFEs", "ertTimeMillis"] ++
+   (["bestF", "lastImprovementFE", "lastImprovementTimeMillis", "totalFEs", "totalTimeMillis", "bestFscaled",
+     "successFEs", "successTimeMillis"].flatMap
+      (fun b => [b, b ++ ".min", b ++ ".mean", b ++ ".med", b ++ ".geom", b ++ ".max", b ++ ".sd"]))).map String.toList
+
+def drvEsCodec : Codec DrvES where
+  titles data := match data with
+    | [] => []
+    | r :: _ => r.cells.map (·.1)
+  row _ r := r.cells.map (·.2)
+  keys := esKeys
+  read f :=
+    match f "objective".toList with
+    | some o => some ⟨esKeys.filterMap (fun k => (f k).map (fun c => (k, c))), o⟩
+    | none => none
+
+def DrvES.cell (e : DrvES) (k : String) : Option Int := (e.cells.lookup k.toList).bind parseInt?
+def DrvES.bestMin (e : DrvES) : Option Int := (e.cell "bestF").orElse (fun _ => e.cell "bestF.min")
+def DrvES.bestMax (e : DrvES) : Option Int := (e.cell "bestF").orElse (fun _ => e.cell "bestF.max")
+
+def drvEsView : EsView DrvES DrvSS where
+  objective e := e.objective
+  bestIs e s := decide (e.bestMin = some s.mn) && decide (e.bestMax = some s.mx) &&
+    decide (e.cells.lookup kN = some s.n)
+  ssMin := DrvSS.mn
+  ssMax := DrvSS.mx
+
+def ss? (s : String) : Option (Str × DrvSS) :=
+  match s.splitOn ":" with
+  | [nm, n, kvs] => do
+      let cells ← if kvs.trimAscii.toString = "" then some [] else
+        (kvs.splitOn "&").mapM (fun kv => match kv.splitOn "=" with
+          | [k, v] => do pure ((← cell? k), (← cell? v))
+          | _ => none)
+      pure ((← cell? nm), ⟨cells, ← cell? n⟩)
+  | _ => none
+
+def srec? (titles : List Str) (s : String) : Option (PSRec DrvES DrvSS) :=
+  match s.splitOn "/" with
+  | [cs, o, nums, sss, m2, m3] => do
+      let cells ← cells? cs
+      if cells.length ≠ titles.length then none else
+      let objs ← if sss.trimAscii.toString = "" then some [] else (sss.splitOn "|").mapM ss?
+      match ← ints? nums with
+      | [n, d, w, h] => pure ⟨⟨titles.zip cells, ← cell? o⟩, n, d, w, h, objs, ← map? m2, ← map? m3⟩
+      | _ => none
+  | _ => none
+
+def showTable (t : Table) : String := s!"{showRow t.header}!{"/".intercalate (t.rows.map showRow)}"
+
+def gen2 (t : Table) : String :=
+  match psRead drvEsCodec drvSsCodec drvEsView t with
+  | none => "gen2=ERR"
+  | some rs => match psWrite drvEsCodec drvSsCodec rs with
+    | none => "gen2=WERR"
+    | some t2 => "gen2=" ++ showTable t2
+
 def handle (op rest : String) : Option String :=
   match op, fields rest with
   | "txtI", [nm, wh, its] => do
@@ -183,5 +276,15 @@ def handle (op rest : String) : Option String :=
       let header ← cells? ts
       let rws ← rows.mapM cells?
       pure (showRead (prRead drvCodec drvView ⟨header, rws⟩))
+  | "csvS", ts :: recs => do
+      let titles ← cells? ts
+      let rs ← recs.mapM (srec? titles)
+      pure (match psWrite drvEsCodec drvSsCodec rs with
+        | none => "WERR"
+        | some t => s!"hdr={showRow t.header} rows={"/".intercalate (t.rows.map showRow)} {gen2 t}")
+  | "csvSp", ts :: rows => do
+      let header ← cells? ts
+      let rws ← rows.mapM cells?
+      pure (gen2 ⟨header, rws⟩)
   | _, _ => none
 end Drv.C19
